@@ -4,7 +4,7 @@ import typing
 from abc import ABC
 from dataclasses import dataclass, field
 from functools import lru_cache
-from typing_extensions import Dict, Optional, Iterable
+from typing_extensions import ClassVar, Dict, Optional, Iterable
 
 from .cache_data import SeenSet
 from .conclusion import Conclusion
@@ -186,6 +186,8 @@ class Next(EQLUnion, ConclusionSelector):
     """
     A Union conclusion selector that always evaluates the left and right branches and combines their results.
     """
+
+    _evaluates_right_on_its_own_: ClassVar[bool] = True
 
     def _evaluate__(
         self,
